@@ -161,7 +161,10 @@ func (p *Progress) Add(total int64, filler BarFiller, options ...BarOption) (*Ba
 	case p.operateState <- func(ps *pState) {
 		bs := ps.makeBarState(total, filler, options...)
 		bar := newBar(ps.ctx, p, bs)
-		if bs.waitBar != nil {
+		if bs.waitBar != nil && bs.waitBar.handedOver {
+			// nobody is going to release this bar anymore: it comes in right away
+			ps.hm.replace(bs.waitBar, bar)
+		} else if bs.waitBar != nil {
 			ps.queueBars[bs.waitBar] = append(ps.queueBars[bs.waitBar], bar)
 		} else {
 			ps.hm.push(bar, true)
@@ -406,6 +409,7 @@ func (s *pState) flush(cw *cwriter.Writer, height int, iter <-chan *Bar) error {
 		switch frame.shutdown {
 		case 1:
 			b.cancel()
+			b.handedOver = true
 			if queue, ok := s.queueBars[b]; ok {
 				delete(s.queueBars, b)
 				for _, qb := range queue {
